@@ -354,7 +354,7 @@ def gen_base(rng, *, steady: bool = False) -> dict:
     nrx = rng.randint(1, 4)
     for j in range(nrx):
         name = f"v{40 + j}"
-        kind = rng.choice(["in", "out", "uni", "uni", "bi", "split", "homo", "uni2", "weird", "tri", "trisplit"])
+        kind = rng.choice(["in", "out", "uni", "uni", "bi", "split", "homo", "uni2", "weird", "tri", "trisplit", "modifier", "modifier"])
         k = rng.choice(pnames + [d[0] for d in dpars])
         if kind == "in":
             x = rng.choice(cpds)
@@ -382,6 +382,9 @@ def gen_base(rng, *, steady: bool = False) -> dict:
         elif kind == "trisplit" and ncpd >= 4:
             x, y, z, w = rng.sample(cpds, 4)
             rxns.append((name, "FProd", [x, k], {x: -1, y: 1, z: 1, w: 1}))
+        elif kind == "modifier" and ncpd >= 3:  # a third compound enters the rate only (unmapped: read through its total)
+            x, y, z = rng.sample(cpds, 3)
+            rxns.append((name, "FProd", [x, z, k], {x: -1, y: 1}))
         elif kind == "homo":
             x, y = rng.sample(cpds, 2)
             rxns.append((name, "FProd", [x, x, k], {x: -2, y: 1}))
